@@ -11,7 +11,9 @@ import (
 	"bytes"
 	stdjson "encoding/json"
 	"fmt"
+	"math/big"
 	"reflect"
+	"strconv"
 	"strings"
 
 	"github.com/segmentio/encoding/json"
@@ -146,6 +148,82 @@ func c15Value(c *Ctx, shape *jShape, vi int, v reflect.Value, seed int64) {
 	}
 }
 
+// c15Number: one number of a kind through the whole grid (the formatters size their output by the number of digits)
+func c15Number(c *Ctx, kind, text string, seed int64) {
+	var x any
+	switch kind {
+	case "int64":
+		n, err := strconv.ParseInt(text, 10, 64)
+		if err != nil {
+			return
+		}
+		x = n
+	case "int32":
+		n, err := strconv.ParseInt(text, 10, 32)
+		if err != nil {
+			return
+		}
+		x = int32(n)
+	case "uint64":
+		n, err := strconv.ParseUint(text, 10, 64)
+		if err != nil {
+			return
+		}
+		x = n
+	case "float64":
+		f, err := strconv.ParseFloat(text, 64)
+		if err != nil {
+			return
+		}
+		x = f
+	case "[]int64":
+		n, err := strconv.ParseInt(text, 10, 64)
+		if err != nil {
+			return
+		}
+		x = []int64{n, -n, n}
+	default:
+		return
+	}
+	for mask := 0; mask < 8; mask += 3 {
+		fl, _ := subsetFlags(mask)
+		ref, refErr := json.Append(nil, x, fl)
+		for _, p := range c15Prefixes {
+			for _, sp := range c15Spares {
+				k := c15Case{Seed: seed, Prefix: p, Spare: sp, Flags: mask, Str: text, API: "number:" + kind}
+				c.Case()
+				c15Check(c, k, "json.Append", len(ref), ref, refErr, func(b []byte) ([]byte, error) { return json.Append(b, x, fl) })
+			}
+		}
+	}
+}
+
+// c15Numbers: every power of ten with its neighbours, positive and negative, per integer kind; the cut-offs of the
+// float formats
+func c15Numbers(c *Ctx) {
+	pow := new(big.Int).SetInt64(1)
+	ten := big.NewInt(10)
+	for k := 0; k <= 20; k++ {
+		for _, d := range []int64{-1, 0, 1} {
+			v := new(big.Int).Add(pow, big.NewInt(d))
+			for _, kind := range []string{"int64", "int32", "uint64", "[]int64"} {
+				c15Number(c, kind, v.String(), c.Seed)
+				c15Number(c, kind, new(big.Int).Neg(v).String(), c.Seed)
+			}
+		}
+		// 10^k + 10^j: a one further down
+		if k >= 4 {
+			v := new(big.Int).Add(pow, new(big.Int).Exp(ten, big.NewInt(int64(k/2)), nil))
+			c15Number(c, "int64", v.String(), c.Seed)
+			c15Number(c, "uint64", v.String(), c.Seed)
+		}
+		pow.Mul(pow, ten)
+	}
+	for _, f := range []string{"1e20", "1e21", "999999999999999900000", "1e-6", "1e-7", "0.000001", "0.0000009999", "123456789.125", "-0", "5e-324", "1.7976931348623157e308", "100", "1e2", "12345678901234567890"} {
+		c15Number(c, "float64", f, c.Seed)
+	}
+}
+
 func c15Vector(c *Ctx, raw stdjson.RawMessage) {
 	var bv bufVec
 	if stdjson.Unmarshal(raw, &bv) == nil && bv.Prefix != nil {
@@ -182,6 +260,10 @@ func c15Replay(c *Ctx, raw stdjson.RawMessage) {
 	if stdjson.Unmarshal(raw, &k) != nil {
 		return
 	}
+	if strings.HasPrefix(k.API, "number:") {
+		c15Number(c, strings.TrimPrefix(k.API, "number:"), k.Str, k.Seed)
+		return
+	}
 	if strings.HasPrefix(k.API, "Append") && k.Shape == nil {
 		c15Value(c, &jShape{K: "string"}, 0, reflect.ValueOf(k.Str), k.Seed)
 		return
@@ -193,5 +275,5 @@ func c15Replay(c *Ctx, raw stdjson.RawMessage) {
 }
 
 func init() {
-	register("C15", &Driver{Vector: c15Vector, Replay: c15Replay})
+	register("C15", &Driver{Vector: c15Vector, Replay: c15Replay, Extra: c15Numbers})
 }
